@@ -182,6 +182,7 @@ type fwdRec struct {
 	done    bool
 	tracked bool
 	stackS  []float64 // stacked application (batch 1, Outputs == Inputs): s_k = sum_d v_{k-1}[d] for every level k
+	stackSA []float64 // magnitude of the terms behind s_k (a sum that cancels is still only known to rounding of its terms)
 }
 
 func (prop c16) Execute(sc *sim.Scenario) *sim.Outcome {
@@ -538,6 +539,7 @@ func (prop c16) Execute(sc *sim.Scenario) *sim.Outcome {
 						SA += va[d]
 					}
 					f.stackS = append(f.stackS, S)
+					f.stackSA = append(f.stackSA, SA)
 					nv, nva := make([]float64, O), make([]float64, O)
 					for o := 0; o < O; o++ {
 						nv[o] = W[o]*S + B[o]
@@ -621,7 +623,7 @@ func (prop c16) Execute(sc *sim.Scenario) *sim.Outcome {
 						if f.w.tracked {
 							f.w.gs[o] += gv[o] * f.stackS[k]
 							f.w.gm[o] += gv[o] * f.stackS[k]
-							f.w.ga[o] += ga[o] * math.Abs(f.stackS[k])
+							f.w.ga[o] += ga[o] * f.stackSA[k]
 						}
 						if f.b.tracked {
 							f.b.gs[o] += gv[o]
